@@ -93,6 +93,12 @@ structure Coils where
 /-- `packed_coils_len` -/
 def packedCoilsLen (bitcount : Nat) : Nat := (bitcount + 7) / 8
 
+/-- the PUBLIC function `packed_coils_len(bitcount: usize)` called directly: `bitcount + 7` is a checked
+    addition, so arguments above `usize::MAX - 7` panic.  Every internal call site passes a `u16` quantity
+    or a slice length, far below that, which is why the rest of the model uses the plain `packedCoilsLen`. -/
+def packedCoilsLenPub (bitcount : Nat) : Res Nat :=
+  if bitcount + 7 < usizeLimit then .ok (packedCoilsLen bitcount) else .panic
+
 /-- `bool_to_u16_coil` -/
 def boolToU16Coil (state : Bool) : UInt16 := if state then 0xFF00 else 0x0000
 
